@@ -50,6 +50,79 @@ fn ladder_source(kind: usize, depth: usize) -> String {
     }
 }
 
+
+const GRID_TRAITS: &[&str] = &["Debug", "Clone", "Copy", "PartialEq", "Eq", "PartialOrd", "Ord", "Hash", "Default", "Deref", "DerefMut", "Into"];
+
+/// argument forms for one trait item `T…`; `{T}` is replaced by the trait name
+const GRID_SHAPES: &[&str] = &[
+    "{T}", "{T}()", "{T}[]", "{T}{}", "{T} = x", "{T} = \"x\"", "{T} = 1", "{T} = false", "{T}(unsafe)", "{T}(unsafe,)", "{T}[unsafe]", "{T}{unsafe}",
+    "{T}(unsafe, unsafe)", "{T}(unsafe = true)", "{T}(unsafe())", "{T}(ignore)", "{T}(ignore = true)", "{T}(ignore, ignore)", "{T}(method = m)",
+    "{T}(method(m))", "{T}(method = \"m\")", "{T}(method)", "{T}(name = false)", "{T}(name(X))", "{T}(name = \"\")", "{T}(named_field = false)",
+    "{T}(rank = 1)", "{T}(rank = -1)", "{T}(rank(1))", "{T}(bound(*))", "{T}(bound())", "{T}(bound = \"\")", "{T}(bound(T: Copy))", "{T}(bound)",
+    "{T}(new)", "{T}(new, new)", "{T}(u8)", "{T}(u8, method = m)", "{T}(expression = 1)", "{T}(expression(1))", "{T} = 1 + 1", "{T}(x)", "{T}({T})",
+    "{T}::x", "::{T}", "{T}<u8>", "{T}(,)", "{T}(=)", "{T}(\"s\")", "{T}(1)", "{T}(unsafe, ignore)", "{T}(unsafe, method = m)", "{T}(unsafe, bound(*))",
+    "{T}(unsafe, name = false)", "{T}(unsafe, new)", "{T}(unsafe, u8)", "{T}(unsafe, expression = 1)", "{T}(unsafe, rank = 1)", "unsafe", "{T}(unsafe(unsafe))",
+    "{T} {T}", "{T},,", "{T}(()", "r#{T}", "{T}(r#unsafe)", "{T}!", "{T}(unsafe)()", "#{T}", "{T}(unsafe) = 1",
+];
+
+/// item skeletons: `@T` = type-level attribute position, `@V` = variant-level, `@F` = field-level
+const GRID_ITEMS: &[&str] = &[
+    "@T struct S;",
+    "@T struct S(@F u8);",
+    "@T struct S(@F u8, u16);",
+    "@T struct S { @F a: u8 }",
+    "@T struct S<T> { @F a: T, b: u8 }",
+    "@T enum E {}",
+    "@T enum E { @V A }",
+    "@T enum E { @V A, B(@F u8) }",
+    "@T enum E<T> { @V A { @F a: T }, B }",
+    "@T union U { @F a: u8 }",
+    "@T union U { @F a: u8, b: u16 }",
+    "@T union U<T: Copy> { @F a: T }",
+];
+
+/// Bounded-exhaustive lane: every trait x every argument form x every attribute position x every item skeleton,
+/// alone and next to a second (plain) trait item. In-process; panics are confirmed through rustc by the caller.
+fn grid_sources(thorough: bool) -> Vec<String> {
+    let mut v = Vec::new();
+    for item in GRID_ITEMS {
+        for pos in ["@T", "@V", "@F"] {
+            if !item.contains(pos) {
+                continue;
+            }
+            for t in GRID_TRAITS {
+                for shape in GRID_SHAPES {
+                    let arg = shape.replace("{T}", t);
+                    let mut companions: Vec<Option<&str>> = vec![None];
+                    if thorough {
+                        companions.extend(GRID_TRAITS.iter().filter(|u| *u != t).map(|u| Some(*u)));
+                    } else {
+                        // the companions that change which handler owns the request
+                        companions.extend(["Clone", "Copy", "PartialOrd", "Ord", "Deref", "Eq"].iter().filter(|u| *u != t).map(|u| Some(*u)));
+                    }
+                    for c in companions {
+                        for order in 0..2 {
+                            let list = match (c, order) {
+                                (None, 0) => arg.clone(),
+                                (None, _) => continue,
+                                (Some(c), 0) => format!("{arg}, {c}"),
+                                (Some(c), _) => format!("{c}, {arg}"),
+                            };
+                            let attr = format!("#[educe({list})]");
+                            // the other positions stay empty; a type-level companion keeps field-level items meaningful
+                            let mut src = item.replace(pos, &attr);
+                            let type_level = if pos == "@T" { String::new() } else { format!("#[educe({t})]") };
+                            src = src.replace("@T", &type_level).replace("@V", "").replace("@F", "");
+                            v.push(src);
+                        }
+                    }
+                }
+            }
+        }
+    }
+    v
+}
+
 pub fn run(ctx: &Ctx) -> i32 {
     let mut rep = Report::new(
         ctx,
@@ -58,7 +131,7 @@ pub fn run(ctx: &Ctx) -> i32 {
          misplaced unsafe, delimiter changes) or at item level (discriminant expressions, repr forms, malformed educe attributes); \
          oracle: the in-process expansion returns Ok or an Err whose message and compile_error tokens can be rendered; every \
          in-process panic is re-run through rustc with the shipping macro and is a violation only if rustc reports a proc-macro panic, \
-         an ICE or dies by signal; plus a nesting ladder (16..4096) compiled in child processes; non-trivial = the mutant reaches a \
+         an ICE or dies by signal; plus a bounded-exhaustive grid (12 traits x 69 argument forms x type/variant/field position x 12 item skeletons incl. unions and empty enums, alone and beside a second trait item in both orders); plus a nesting ladder (16..4096) compiled in child processes; non-trivial = the mutant reaches a \
          diagnostic path (is refused); distinct by mutant hash",
     );
     rep.assumptions.push("hangs are detected by a watchdog and reported as inconclusive (exit 2)".into());
@@ -131,6 +204,37 @@ pub fn run(ctx: &Ctx) -> i32 {
             _ => {},
         }
     }
+    // bounded-exhaustive grid
+    let grid = grid_sources(ctx.thorough());
+    let grid_res: Vec<Expansion> = grid
+        .par_iter()
+        .map(|s| {
+            let r = engine::expand_src(s);
+            progress.fetch_add(1, Ordering::SeqCst);
+            r
+        })
+        .collect();
+    let mut grid_candidates: Vec<(usize, String)> = Vec::new();
+    for (i, r) in grid_res.iter().enumerate() {
+        rep.evaluations += 1;
+        rep.count("grid_cases", 1);
+        match r {
+            Expansion::Err(_) => {
+                rep.count("grid_refused", 1);
+                rep.nontrivial.insert(fnv64(&grid[i]));
+            },
+            Expansion::Ok(_) => rep.count("grid_accepted", 1),
+            Expansion::Unparsable(_) => rep.count("grid_not_a_derive_input", 1),
+            Expansion::Panic(m) => {
+                let site = format!("grid:{}", panic_site(m));
+                let c = per_site.entry(site).or_insert(0);
+                *c += 1;
+                if *c <= 6 {
+                    grid_candidates.push((i, m.clone()));
+                }
+            },
+        }
+    }
     rep.extra.insert("in_process_panic_sites".into(), json!(per_site));
     // confirm candidates through the shipping macro
     let so = match engine::build_proc_macro() {
@@ -141,11 +245,13 @@ pub fn run(ctx: &Ctx) -> i32 {
             return rep.finish();
         },
     };
-    if !candidates.is_empty() {
-        let units: Vec<Unit> = candidates.iter().map(|(i, _)| Unit { body: format!("use educe::Educe;\n#[derive(Educe)]\n{}\n", results[*i].src), has_run: false }).collect();
+    let mut all: Vec<(String, String, Vec<u16>)> = candidates.iter().map(|(i, m)| (results[*i].src.clone(), m.clone(), dnas[*i].clone())).collect();
+    all.extend(grid_candidates.iter().map(|(i, m)| (grid[*i].clone(), m.clone(), Vec::new())));
+    if !all.is_empty() {
+        let units: Vec<Unit> = all.iter().map(|(src, _, _)| Unit { body: format!("use educe::Educe;\n#[derive(Educe)]\n{src}\n"), has_run: false }).collect();
         let (outs, _) = check::eval_units("C17", &units, &so, 1, false);
         for (k, o) in outs.iter().enumerate() {
-            let (i, m) = &candidates[k];
+            let (src, m, dna) = &all[k];
             rep.count("panic_candidates_confirmed_through_rustc", 1);
             if o.proc_macro_panic || o.died.is_some() {
                 let site = panic_site(m);
@@ -155,9 +261,9 @@ pub fn run(ctx: &Ctx) -> i32 {
                 }
                 rep.violations.push(Failure {
                     msg: format!("the shipping macro panics (in-process: {m}); rustc: {:?} {:?}", o.compile_errors.iter().take(2).collect::<Vec<_>>(), o.died),
-                    dna: dnas[*i].clone(),
-                    variant: "panic".into(),
-                    source: results[*i].src.clone(),
+                    dna: dna.clone(),
+                    variant: if dna.is_empty() { "grid-panic".into() } else { "panic".into() },
+                    source: src.clone(),
                     unit_body: Some(units[k].body.clone()),
                 });
             } else {
